@@ -3,6 +3,7 @@ package main
 import (
 	"fmt"
 	"go/token"
+	"math/rand"
 	"sort"
 	"strings"
 	"time"
@@ -72,6 +73,8 @@ type Explorer struct {
 	branchSolver int
 	stubsUsed    map[string]int
 	shard        int
+	random       *rand.Rand
+	lastObserves []string
 }
 
 func NewExplorer(vm *VM, cfg *RunCfg) *Explorer {
@@ -121,6 +124,12 @@ func (vm *VM) choose(n int, label string, kind byte) int {
 		ex.pos++
 		ex.shardCheck()
 		return d.Choice
+	}
+	if ex.random != nil {
+		c := ex.random.Intn(n)
+		ex.trace = append(ex.trace, Decision{Kind: kind, N: n, Choice: c, Label: label})
+		ex.pos++
+		return c
 	}
 	if ex.replay {
 		panic(pathAbort{kind: "ENGINE", msg: "replay trace exhausted at " + label})
@@ -499,6 +508,7 @@ func (ex *Explorer) Run(runPath func() *PathResult) *Report {
 		res := runPath()
 		ex.Paths++
 		ex.PathKinds[res.Kind]++
+		ex.lastObserves = append([]string(nil), ex.vm.observes...)
 		ex.Steps += ex.vm.steps
 		if len(ex.trace) > ex.MaxTraceLen {
 			ex.MaxTraceLen = len(ex.trace)
